@@ -1,4 +1,111 @@
-/- Driver for C05 (stub: not built yet). -/
+/-
+Driver for C05: runs the reduction model on concrete values with the harness' recording
+regressor (a position-sensitive polynomial hash, mirrored in harness/corr/C05.py).
+
+  C05 swt <sci> <wl> <fh> <y> <X>
+  C05 run <strategy> <sci> <wl> <fhFit> <fhPred> <t0> <y> <X> <upd> <uy> <uX> <Xp>
+
+values: integers | nan | inf | -inf;  lists "a,b,c" ("-" = empty);  row lists "a,b;c,d";  "none".
+-/
+import SkVerif.Model.Reduce
+import SkVerif.Drv.Parse
 namespace SkVerif.Drv.C05
-def handle (_toks : List String) : String := "bad-op"
+open SkVerif SkVerif.Reduce SkVerif.Drv
+
+inductive Val | num (i : Int) | nan | pinf | ninf
+  deriving DecidableEq, Repr
+
+def vals : Vals Val := { zero := .num 0, nan := .nan, bad := fun v => match v with | .num _ => false | _ => true }
+
+def showVal : Val → String
+  | .num i => toString i | .nan => "nan" | .pinf => "inf" | .ninf => "-inf"
+
+def parseVal? (s : String) : Option Val :=
+  if s == "nan" then some .nan else if s == "inf" then some .pinf else if s == "-inf" then some .ninf
+  else (parseInt? s).map Val.num
+
+def parseVals? (s : String) : Option (List Val) :=
+  if s == "-" then some [] else (s.splitOn ",").mapM parseVal?
+
+def parseRows? (s : String) : Option (Option (List (List Val))) :=
+  if s == "none" then some none
+  else if s == "-" then some (some [])
+  else ((s.splitOn ";").mapM parseVals?).map some
+
+def parseFh? (s : String) : Option (Option (List Int)) :=
+  if s == "none" then some none else (parseIntList? s).map some
+
+def parseWl? (s : String) : Option WLRaw :=
+  if s == "none" then some .none else if s == "nonint" then some .nonint else (parseInt? s).map WLRaw.int
+
+def parseSci? (s : String) : Option Scitype :=
+  if s == "tab" then some .tabular else if s == "ts" then some .panel else none
+
+def parseStrategy? (s : String) : Option Strategy :=
+  match s with
+  | "direct" => some .direct | "recursive" => some .recursive
+  | "multioutput" => some .multioutput | "dirrec" => some .dirrec | _ => none
+
+/-! the recording regressor's output function (mirrors `_hash_*` in corr/C05.py) -/
+def P : Int := 2147483647
+def enc : Val → Int
+  | .num i => i | .nan => 999983 | .pinf => 999979 | .ninf => 999961
+def hl (acc : Int) (xs : List Val) : Int := xs.foldl (fun a x => (a * 1000003 + enc x + 12345) % P) acc
+def hi (acc : Int) (inst : Inst Val) : Int := inst.foldl (fun a var => hl ((a * 31 + 7) % P) var) acc
+def sigX (X : List (Inst Val)) : Int := X.foldl hi 17
+
+def hashReg : Regressor Val where
+  train X y := fun inst => .num (hi (hl ((sigX X * 131 + 1) % P) y) inst)
+  trainM X Y := fun inst j =>
+    let s := Y.foldl (fun a row => hl ((a * 37 + 3) % P) row) ((sigX X * 131 + 2) % P)
+    .num (hi ((s + 1 + (j : Int)) % P) inst)
+
+def showVals (l : List Val) : String := if l.isEmpty then "-" else ",".intercalate (l.map showVal)
+def showInst (i : Inst Val) : String := if i.isEmpty then "-" else "|".intercalate (i.map showVals)
+def showRows (l : List (List Val)) : String := if l.isEmpty then "-" else ";".intercalate (l.map showVals)
+def tagOf : Scitype → String | .tabular => "2d:" | .panel => "3d:"
+def showInsts (sci : Scitype) (l : List (Inst Val)) : String :=
+  tagOf sci ++ (if l.isEmpty then "-" else ";".intercalate (l.map showInst))
+def showTarget : Target Val → String
+  | .vec l => "v:" ++ showVals l
+  | .mat l => "m:" ++ showRows l
+def showCall (sci : Scitype) : Call Val → String
+  | .fit X y => s!"F:{showInsts sci X}:{showTarget y}"
+  | .predict k x out => s!"P{k}:{showInsts sci [x]}>{showVals out}"
+def showErr : Err → String
+  | .value => "E:value" | .type => "E:type" | .notimpl => "E:notimpl"
+  | .assert => "E:assert" | .index => "E:index" | .attr => "E:attr"
+def showStage : Stage → String | .fit => "fit" | .update => "update" | .predict => "predict"
+
+def handle (toks : List String) : String :=
+  match toks with
+  | ["swt", sci, wl, fh, y, X] =>
+    match parseSci? sci, parseWl? wl, parseIntList? fh, parseVals? y, parseRows? X with
+    | some sci, some wl, some fh, some y, some X =>
+      match swt vals y wl fh X sci with
+      | .error e => showErr e
+      | .ok (yt, Xt) => s!"yt={showRows yt} Xt={showInsts sci Xt}"
+    | _, _, _, _, _ => "bad-op"
+  | ["run", s, sci, wl, fhFit, fhPred, t0, y, X, upd, uy, uX, Xp] =>
+    match parseStrategy? s, parseSci? sci, parseWl? wl, parseFh? fhFit, parseFh? fhPred, parseInt? t0,
+          parseVals? y, parseRows? X, parseVals? uy, parseRows? uX, parseRows? Xp with
+    | some s, some sci, some wl, some fhFit, some fhPred, some t0, some y, some X, some uy, some uX, some Xp =>
+      let updE : Option (Upd Val) :=
+        if upd == "no" then some .no
+        else if X.isSome != uX.isSome then none      -- domain: the batch has X iff fit had X
+        else if upd == "upd" then some (.batch uy uX false)
+        else if upd == "refit" then some (.batch uy uX true)
+        else none
+      match updE with
+      | none => "bad-op"
+      | some u =>
+        let (calls, res) := run vals hashReg s sci wl t0 y X fhFit u fhPred Xp
+        let cs := if calls.isEmpty then "-" else "/".intercalate (calls.map (showCall sci))
+        let rs := match res with
+          | .error (e, st) => s!"{showErr e}@{showStage st}"
+          | .ok out => if out.isEmpty then "-" else ",".intercalate (out.map fun (p : Int × Val) => s!"{p.1}:{showVal p.2}")
+        s!"calls={cs} res={rs}"
+    | _, _, _, _, _, _, _, _, _, _, _ => "bad-op"
+  | _ => "bad-op"
+
 end SkVerif.Drv.C05
